@@ -392,3 +392,197 @@ func extraC05Decoder(c *Ctx, r *Report) {
 	addMutants(Mutant{Prop: "C05", Name: "backend-json-stream-decoded", File: "internal/app/handlers/handler_translation.go", Rule: "C05-R7",
 		Old: "json.Unmarshal(recorder.body.Bytes(), &openaiResp)", New: "json.NewDecoder(recorder.body).Decode(&openaiResp)"})
 }
+
+// ---------- C08-R8 / C08-R9 ----------
+
+func init() {
+	registerExtra("C08", extraC08Wave2)
+}
+
+// reachReturnAvoiding: can a return of fn be reached from its entry without executing an instruction for which
+// stop() holds and without taking an edge for which skip() holds? Returns the offending return.
+func reachReturnAvoiding(fn *ssa.Function, stop func(ssa.Instruction) bool, skip func(from, to *ssa.BasicBlock) bool) *ssa.Return {
+	if len(fn.Blocks) == 0 {
+		return nil
+	}
+	seen := map[*ssa.BasicBlock]bool{fn.Blocks[0]: true}
+	work := []*ssa.BasicBlock{fn.Blocks[0]}
+	for len(work) > 0 {
+		b := work[len(work)-1]
+		work = work[:len(work)-1]
+		stopped := false
+		for _, in := range b.Instrs {
+			if stop(in) {
+				stopped = true
+				break
+			}
+			if ret, ok := in.(*ssa.Return); ok {
+				return ret
+			}
+		}
+		if stopped {
+			continue
+		}
+		for _, s := range b.Succs {
+			if seen[s] || (skip != nil && skip(b, s)) {
+				continue
+			}
+			seen[s] = true
+			work = append(work, s)
+		}
+	}
+	return nil
+}
+
+func extraC08Wave2(c *Ctx, r *Report) {
+	// R8: wrappers forward every outcome
+	r.Rule("C08-R8", "a function named RecordSuccess / RecordFailure that forwards the outcome to a circuit breaker (a wrapper such as the unifier's EndpointManager) does so on every path from entry to return, except the path on which the breaker is disabled (false edge of an `Enabled` test) — an early 'nothing to do' return starves the breaker of the successes it needs to close", 2)
+	isBreakerType := func(t types.Type) bool {
+		for _, b := range breakers {
+			if isNamed(t, b.Pkg, b.Type) {
+				return true
+			}
+		}
+		return isNamed(t, pkgHealth, "CircuitBreaker")
+	}
+	for _, f := range c.Funcs {
+		if f.Parent() != nil || !c.inRepo(f) || (f.Name() != "RecordSuccess" && f.Name() != "RecordFailure") {
+			continue
+		}
+		if f.Signature.Recv() == nil || isBreakerType(f.Signature.Recv().Type()) {
+			continue
+		}
+		var fwd []ssa.Instruction
+		eachInstr(f, func(in ssa.Instruction) {
+			if cc := getCall(in); cc != nil {
+				if sc := cc.StaticCallee(); sc != nil && sc.Name() == f.Name() && sc.Signature.Recv() != nil && isBreakerType(sc.Signature.Recv().Type()) {
+					fwd = append(fwd, in)
+				}
+			}
+		})
+		if len(fwd) == 0 {
+			continue
+		}
+		key := fname(f) + ":forwards-outcome"
+		isFwd := func(in ssa.Instruction) bool {
+			for _, x := range fwd {
+				if x == in {
+					return true
+				}
+			}
+			return false
+		}
+		disabledEdge := func(from, to *ssa.BasicBlock) bool {
+			ifi, ok := lastInstr(from).(*ssa.If)
+			if !ok || len(from.Succs) != 2 {
+				return false
+			}
+			v, pol := ifi.Cond, true
+			for {
+				if u, ok := v.(*ssa.UnOp); ok && u.Op == token.NOT {
+					v, pol = u.X, !pol
+					continue
+				}
+				break
+			}
+			ld, ok := v.(*ssa.UnOp)
+			if !ok || ld.Op != token.MUL {
+				return false
+			}
+			_, fld, ok := fieldOf(ld.X)
+			if !ok || fld.Name() != "Enabled" {
+				return false
+			}
+			// the edge on which Enabled is false
+			if pol {
+				return to == from.Succs[1]
+			}
+			return to == from.Succs[0]
+		}
+		if ret := reachReturnAvoiding(f, isFwd, disabledEdge); ret != nil {
+			r.Bad("C08-R8", key, ret.Pos(), "the wrapper can return without forwarding the outcome to the breaker although the breaker is enabled: a half-open breaker never sees the successes it needs to close (or the failures that must re-open it)")
+		} else {
+			r.OK("C08-R8", key, f.Pos(), "every path forwards the outcome or runs with the breaker disabled")
+		}
+	}
+	addMutants(Mutant{Prop: "C08", Name: "manager-skips-breaker-when-online", File: "internal/adapter/unifier/endpoint_manager.go", Rule: "C08-R8",
+		Old: "	m.lastEndpointCheck[endpointURL] = time.Now()\n\n	// Update circuit breaker if enabled\n	if m.config.CircuitBreaker.Enabled {\n		cb := m.getOrCreateCircuitBreakerLocked(endpointURL)\n		cb.RecordSuccess()",
+		New: "	m.lastEndpointCheck[endpointURL] = time.Now()\n	if st, ok := m.endpointStates[endpointURL]; ok && st.State == domain.EndpointStateOnline {\n		return\n	}\n\n	// Update circuit breaker if enabled\n	if m.config.CircuitBreaker.Enabled {\n		cb := m.getOrCreateCircuitBreakerLocked(endpointURL)\n		cb.RecordSuccess()"})
+
+	// R9: the half-open slot is released by every recorded outcome
+	r.Rule("C08-R9", "the health breaker's half-open probe slot (the field IsOpen acquires with CompareAndSwap 0→now) is stored back to 0 on every path of RecordSuccess and RecordFailure that touches the breaker state: a failed probe that leaves the slot taken makes the stale-slot escape admit every caller of the next half-open period", 2)
+	isOpen := c.Fn(pkgHealth, "(*CircuitBreaker).IsOpen")
+	var slot *types.Var
+	if isOpen != nil {
+		eachInstr(isOpen, func(in ssa.Instruction) {
+			if call, ok := in.(*ssa.Call); ok {
+				ci := describeCall(&call.Call)
+				if ci.Pkg == "sync/atomic" && strings.HasPrefix(ci.Name, "CompareAndSwap") {
+					if _, fld, ok := fieldOf(call.Call.Args[0]); ok {
+						slot = fld
+					}
+				}
+			}
+		})
+	}
+	if slot == nil {
+		r.Unresolved("C08-R9", "half-open slot (CompareAndSwap in health.(*CircuitBreaker).IsOpen)")
+		return
+	}
+	for _, name := range []string{"RecordSuccess", "RecordFailure"} {
+		f := c.Fn(pkgHealth, "(*CircuitBreaker)."+name)
+		if f == nil {
+			r.Unresolved("C08-R9", "health.(*CircuitBreaker)."+name)
+			continue
+		}
+		isAtomicWrite := func(in ssa.Instruction) (*types.Var, ssa.Value, bool) {
+			cc := getCall(in)
+			if cc == nil || len(cc.Args) == 0 {
+				return nil, nil, false
+			}
+			ci := describeCall(cc)
+			if ci.Pkg != "sync/atomic" || !(strings.HasPrefix(ci.Name, "Store") || strings.HasPrefix(ci.Name, "Add")) {
+				return nil, nil, false
+			}
+			_, fld, ok := fieldOf(cc.Args[0])
+			if !ok {
+				return nil, nil, false
+			}
+			return fld, cc.Args[len(cc.Args)-1], true
+		}
+		isRelease := func(in ssa.Instruction) bool {
+			fld, v, ok := isAtomicWrite(in)
+			if !ok || fld != slot {
+				return false
+			}
+			k, isK := constInt(v)
+			return isK && k == 0
+		}
+		var first ssa.Instruction
+		var release ssa.Instruction
+		eachInstr(f, func(in ssa.Instruction) {
+			if _, _, ok := isAtomicWrite(in); ok && first == nil {
+				first = in
+			}
+			if isRelease(in) && release == nil {
+				release = in
+			}
+		})
+		key := fname(f) + ":releases-half-open-slot"
+		switch {
+		case first == nil:
+			r.Undecided("C08-R9", key, f.Pos(), "no atomic state update found")
+		case release != nil && (release == first || instrDominates(release, first)):
+			r.OK("C08-R9", key, release.Pos(), "slot released before any other state update")
+		default:
+			if all, _ := everyPathToReturnHits(first, isRelease); all {
+				r.OK("C08-R9", key, first.Pos(), "every path from the first state update to a return releases the slot")
+			} else {
+				r.Bad("C08-R9", key, first.Pos(), "an outcome can be recorded without releasing the half-open slot: after a failed probe the slot stays taken and the one-second stale-slot escape lets every caller through during the next half-open period")
+			}
+		}
+	}
+	addMutants(Mutant{Prop: "C08", Name: "slot-released-only-when-tripping", File: "internal/adapter/health/circuit_breaker.go", Rule: "C08-R9",
+		Old: "	atomic.StoreInt64(&state.lastAttempt, 0)\n\n	if failures >= int64(cb.failureThreshold) {\n		atomic.StoreInt32(&state.isOpen, 1)\n	}",
+		New: "	if failures >= int64(cb.failureThreshold) {\n		if atomic.CompareAndSwapInt32(&state.isOpen, 0, 1) {\n			atomic.StoreInt64(&state.lastAttempt, 0)\n		}\n	}"})
+}
